@@ -14,7 +14,9 @@ import ast
 
 from .. import cfg as cfgmod
 from ..loader import AnalysisError, unparse, call_name, const_str
-from ..dataflow import target_names
+from ..dataflow import target_names, single_assign_subst, resolve_expr
+from ..cfg import atomic_facts
+from ..inline import flatten
 
 TECHNIQUE = ('static analysis: exactly-once path counting and control dependence on a hand-built CFG; who-may-write scan of '
              'all F / INC writers with a positive control')
@@ -83,10 +85,22 @@ def ledger_writers(tree_or_func, keys=('F', 'INC')):
 
 def who_may_write(prog, check, rule, cash):
     n = 0
+    # private helpers of the primitive (same class, reached from it) belong to it
+    family = set()
+    work = [cash]
+    while work:
+        f_ = work.pop()
+        for c in ast.walk(f_.node):
+            if isinstance(c, ast.Call) and isinstance(c.func, ast.Attribute) and isinstance(c.func.value, ast.Name) and \
+                    c.func.value.id == 'self' and c.func.attr.startswith('_') and not c.func.attr.startswith('__'):
+                h = prog.resolve_method(cash.cls, c.func.attr)
+                if h is not None and h.cls is cash.cls and h.key not in family and h is not cash:
+                    family.add(h.key)
+                    work.append(h)
     for f in prog.all_functions():
         ws = [w for w in ledger_writers(f.node) if w[0] != 'AddVariableFromEquation']
         for kind, key, node in ws:
-            allowed = (f is cash) or (f.cls is not None and f.cls.name == 'Sector' and f.name == '__init__')
+            allowed = (f is cash) or f.key in family or (f.cls is not None and f.cls.name == 'Sector' and f.name == '__init__')
             n += 1
             check.ob(rule, '%s::writes(%s,%s)' % (f.key, key, kind), allowed, '%s:%d' % (f.module.rel, node.lineno),
                      'sanctioned writer' if allowed else 'the %s equation is written outside the constructor / cash-flow method' % key,
@@ -109,17 +123,32 @@ def run(prog, check):
     check.not_decided = ('the value of the rendered equations over all registration histories (rests on C12); the string test for '
                          '"identically zero" (only the literal spellings \'\' and \'0.0\')')
     check.assumptions = ['terms passed to the cash-flow method are simple (the method raises otherwise)']
-    cash = find_cashflow_method(prog)
-    check.saw(cash)
+    cash_raw = find_cashflow_method(prog)
+    check.saw(cash_raw)
+    cash = flatten(prog, cash_raw)
+    for k in getattr(cash, 'inlined', ()):
+        check.analysed['functions'].add(k)
     g = cfgmod.build(cash)
+    sub = single_assign_subst(cash.node)
     params = cash.params()
     term_p = params[1]
     # ---- R1 ----------------------------------------------------------------------------------------
     fadds = [n for n in g.stmt_nodes() if n.kind == 'stmt' and block_addterm_nodes(n.ast, 'F')]
     iadds = [n for n in g.stmt_nodes() if n.kind == 'stmt' and block_addterm_nodes(n.ast, 'INC')]
-    # the empty-term early return
-    early = [n for n in g.stmt_nodes() if n.kind == 'stmt' and isinstance(n.ast, ast.Return) and
-             isinstance(getattr(n.ast, '_parent', None), ast.If) and 'len(' in unparse(n.ast._parent.test)]
+    # the empty-term early return: a return reached only under "the term is empty"
+    def empty_term_fact(e, val):
+        txt = unparse(resolve_expr(e, sub)).replace(' ', '')
+        base = (term_p, term_p + '.strip()')
+        if any(txt == 'len(%s)==0' % b_ for b_ in base) or any(txt == "%s==''" % b_ for b_ in base):
+            return val is True
+        if any(txt in ('len(%s)>0' % b_, 'len(%s)!=0' % b_, b_) for b_ in base):
+            return val is False
+        return False
+    early = []
+    for n in g.stmt_nodes():
+        if n.kind == 'stmt' and isinstance(n.ast, ast.Return):
+            if any(empty_term_fact(e, v) for test, outcome in g.conditions_at(n) for _, v, e in atomic_facts(test, outcome)):
+                early.append(n)
     paths = g.paths(g.entry, g.exit, cap=20000)
     bad = 0
     for p in paths:
@@ -146,72 +175,101 @@ def run(prog, check):
                  'F receives the (stripped) signed term that was passed in' if ok else
                  'F receives something else than the signed term (e.g. the sign-stripped name)', "AddCashFlow('-T')")
     # ---- R2 ----------------------------------------------------------------------------------------
+    # decided by a search over (node, truthiness constants, bookkeeping) states of the flattened method:
+    #   M  a matching exclusion was seen   (both tests "exclusion is for this sector" and "excluded == sign-stripped
+    #      name" held in one iteration of the scan over the model's income exclusions)
+    #   E  the scan was left early without a match;   f / inc  number of F / INC entries made so far
+    # at every normal exit that booked the flow:  inc == 1 iff (income flag passed in and not M), else inc == 0.
     flag = [p for p in params if 'income' in p.lower()]
     if len(flag) != 1:
         raise AnalysisError('income flag parameter not found')
     flag = flag[0]
-    for n in iadds:
-        ok = False
-        for t in g.nodes:
-            if t.kind == 'test' and isinstance(t.ast, ast.Name) and t.ast.id == flag and g.dominates(t, n):
-                fe = [b for b, l in g.succ[t.id] if l is False]
-                if n.id not in g.reach(fe, include_src=True):
-                    ok = True
-        c = block_addterm_nodes(n.ast, 'INC')[0]
-        same = bool(fadds) and unparse(c.args[0]) == unparse(block_addterm_nodes(fadds[0].ast, 'F')[0].args[0])
-        check.ob('C06.R2', '%s::INC-only-if-flag' % cash.key, ok and same, '%s:%d' % (cash.module.rel, n.line),
-                 'INC receives the same term, only when the income flag is (still) set' if (ok and same) else
-                 'INC entry not guarded by the income flag / receives a different term', 'is_income=False flows, excluded flows')
-    # whenever the flag survives, INC is written: from the last flag test True edge every path hits the INC add
-    last_tests = [t for t in g.nodes if t.kind == 'test' and isinstance(t.ast, ast.Name) and t.ast.id == flag]
-    okall = False
-    for t in last_tests:
-        te = [b for b, l in g.succ[t.id] if l is True]
-        if te and any(g.nodes[b] in iadds or g.must_pass(b, g.exit, iadds) for b in te) and any(g.dominates(t, n) for n in iadds):
-            okall = True
-    check.ob('C06.R2', '%s::INC-if-flag' % cash.key, okall, cash.where,
-             'a surviving income flag always leads to the INC entry' if okall else 'an income flow can miss the INC entry',
-             'is_income=True flow without exclusion')
-    lowers = [n for n in g.stmt_nodes() if n.kind == 'stmt' and isinstance(n.ast, ast.Assign) and flag in target_names(n.ast.targets[0])]
-    for n in lowers:
-        v = n.ast.value
-        is_false = isinstance(v, ast.Constant) and v.value is False
-        loops = [l for l in n.loops if isinstance(l, ast.For)]
-        cond_obj = cond_name = False
-        if loops:
-            lv = target_names(loops[-1].target)
-            excl_ok = 'IncomeExclusions' in unparse(loops[-1].iter)
-            for t in g.nodes:
-                if t.kind == 'test' and g.dominates(t, n) and loops[-1] in t.loops:
-                    fe = [b for b, l in g.succ[t.id] if l is False]
-                    hdr = [h for h in g.nodes if h.kind == 'for' and h.stmt is loops[-1]][0]
-                    if n.id in g.reach(fe, avoid={hdr.id}, include_src=True):
-                        continue
-                    for c in ([t.ast] if not isinstance(t.ast, ast.BoolOp) else t.ast.values):
-                        if isinstance(c, ast.Compare) and isinstance(c.ops[0], (ast.Eq, ast.Is)):
-                            l_, r_ = unparse(c.left), unparse(c.comparators[0])
-                            pair = {l_, r_}
-                            if pair in ({'%s.ID' % lv[0], 'self.ID'}, {lv[0], 'self'}):
-                                cond_obj = True
-                            if len(lv) > 1 and lv[1] in pair and any(x.endswith('.Term') for x in pair):
-                                cond_name = True
-            ok = is_false and excl_ok and cond_obj and cond_name
-        else:
-            ok = False
-        check.ob('C06.R2', '%s::flag-lowered-only-by-matching-exclusion' % cash.key, ok, '%s:%d' % (cash.module.rel, n.line),
-                 'flag set to False only under (exclusion is for this sector) and (excluded name == sign-stripped term)' if ok else
-                 'the income flag is changed outside a matching exclusion of this sector (obj=%s, name=%s, False=%s)' % (cond_obj, cond_name, is_false),
-                 "exclusion registered for another sector, or for 'DEM_GOOD' while the flow is '-DEM_GOODS'")
-    # the scan over the exclusions is complete: it may stop early only after a match lowered the flag
-    excl_loops = [l for l in ast.walk(cash.node) if isinstance(l, ast.For) and 'IncomeExclusions' in unparse(l.iter)]
+    excl_loops = [l for l in ast.walk(cash.node) if isinstance(l, ast.For) and 'IncomeExclusions' in unparse(resolve_expr(l.iter, sub))]
+    term_names = set()      # expressions denoting the sign-stripped name of the flow
+    for n in ast.walk(cash.node):
+        if isinstance(n, ast.Assign) and len(n.targets) == 1 and isinstance(n.targets[0], ast.Name) and \
+                unparse(resolve_expr(n.value, sub)).endswith('.Term') and n.targets[0].id != term_p:
+            term_names.add(n.targets[0].id)
+
+    def match_facts(test, label, loop):
+        lv = target_names(loop.target)
+        obj = name = False
+        for txt, val, e in atomic_facts(test, label):
+            if not (val is True and isinstance(e, ast.Compare) and len(e.ops) == 1 and isinstance(e.ops[0], (ast.Eq, ast.Is))):
+                continue
+            l_, r_ = unparse(e.left), unparse(e.comparators[0])
+            pair = {l_, r_}
+            if lv and pair in ({'%s.ID' % lv[0], 'self.ID'}, {lv[0], 'self'}):
+                obj = True
+            if len(lv) > 1 and lv[1] in pair and any(x.endswith('.Term') or x in term_names for x in pair - {lv[1]}):
+                name = True
+        return obj, name
+    loop_ids = {id(l): l for l in excl_loops}
+
+    def step(extra, node, lab, env, nxt):
+        M, mo, mn, E, f_, inc = extra
+        if node.kind == 'stmt':
+            if block_addterm_nodes(node.ast, 'F'):
+                f_ = min(2, f_ + 1)
+            if block_addterm_nodes(node.ast, 'INC'):
+                inc = min(2, inc + 1)
+        if node.kind == 'for' and id(node.stmt) in loop_ids and lab is True:
+            mo = mn = 0
+        if node.kind == 'test' and lab in (True, False):
+            for l in excl_loops:
+                if l in node.loops:
+                    o_, n_ = match_facts(node.ast, lab, l)
+                    mo, mn = (1 if o_ else mo), (1 if n_ else mn)
+        if mo and mn:
+            M = 1
+        # leaving the scan other than by exhausting it
+        for l in excl_loops:
+            inside_now = l in node.loops or (node.kind == 'for' and node.stmt is l)
+            inside_next = l in nxt.loops or (nxt.kind == 'for' and nxt.stmt is l)
+            if inside_now and not inside_next and not (node.kind == 'for' and node.stmt is l and lab is False) and not M:
+                E = 1
+        return (M, mo, mn, E, f_, inc)
+    from ..dataflow import truth_search, trace
+    res = {}
+    for fv in (True, False):
+        hits, seen = truth_search(g, [g.entry], [g.exit], env0={flag: (fv, None)}, extra0=(0, 0, 0, 0, 0, 0), step=step)
+        res[fv] = [(k, seen) for k in seen if k[0] == g.exit.id]
+    def witness(k, seen):
+        return 'lines ' + ','.join(str(x) for x in trace(seen, k, g))
+    bad_only, bad_if, bad_scan = [], [], []
+    for fv in (True, False):
+        for k, seen in res[fv]:
+            M, mo, mn, E, f_, inc = k[2]
+            if f_ == 0:
+                continue
+            if inc > 0 and (not fv or M):
+                bad_only.append(witness(k, seen))
+            if fv and not M and not E and inc != 1:
+                bad_if.append(witness(k, seen))
+            if E:
+                bad_scan.append(witness(k, seen))
+    same = bool(fadds) and bool(iadds) and all(
+        unparse(block_addterm_nodes(n.ast, 'INC')[0].args[0]) == unparse(block_addterm_nodes(fadds[0].ast, 'F')[0].args[0]) for n in iadds)
+    check.ob('C06.R2', '%s::INC-only-if-flag' % cash.key, not bad_only and same, iadds[0].ast.lineno and '%s:%d' % (cash.module.rel, iadds[0].line) if iadds else cash.where,
+             'INC receives the same term, only when the income flag was passed in and no exclusion of this sector matches' if (not bad_only and same) else
+             'INC entry not guarded by the income flag / a matching exclusion, or receives a different term' + (' (%s)' % bad_only[0] if bad_only else ''),
+             'is_income=False flows, excluded flows')
+    check.ob('C06.R2', '%s::INC-if-flag' % cash.key, not bad_if and bool(iadds), cash.where,
+             'an income flow without a matching exclusion always gets exactly one INC entry' if (not bad_if and iadds) else
+             'an income flow without a matching exclusion can miss the INC entry (or get it twice)' + (' (%s)' % bad_if[0] if bad_if else ''),
+             "is_income=True flow; exclusion registered for another sector, or for 'DEM_GOOD' while the flow is '-DEM_GOODS'")
     for l in excl_loops:
-        stops = [n for n in g.stmt_nodes() if n.kind == 'stmt' and isinstance(n.ast, (ast.Break, ast.Return)) and l in n.loops]
-        bad_stop = [n for n in stops if not any(g.dominates(lw, n) for lw in lowers)]
-        filt = [n for n in g.nodes if n.kind == 'test' and l in n.loops and not any(
-            g.dominates(n, lw) for lw in lowers)]
-        check.ob('C06.R2', '%s::exclusion-scan-complete' % cash.key, not bad_stop, '%s:%d' % (cash.module.rel, l.lineno),
-                 'every registered exclusion is examined until one matches' if not bad_stop else
-                 'the scan over the exclusions can stop (line %s) before a matching exclusion was found' % [n.line for n in bad_stop],
+        # every iteration examines the exclusion: object test, and the name test when the object test holds
+        hdr = [h for h in g.nodes if h.kind == 'for' and h.stmt is l][0]
+        tests = [t for t in g.nodes if t.kind == 'test' and l in t.loops]
+        obj_tests = [t for t in tests if any(match_facts(t.ast, lab_, l)[0] for lab_ in (True, False))]
+        name_tests = [t for t in tests if any(match_facts(t.ast, lab_, l)[1] for lab_ in (True, False))]
+        first = [b_ for b_, lab_ in g.succ[hdr.id] if lab_ is True]
+        exam = bool(obj_tests) and bool(name_tests) and all(g.nodes[b_] in obj_tests or g.must_pass(b_, hdr, obj_tests) for b_ in first)
+        check.ob('C06.R2', '%s::exclusion-scan-complete' % cash.key, not bad_scan and exam, '%s:%d' % (cash.module.rel, l.lineno),
+                 'every registered exclusion is examined (sector and name) until one matches' if (not bad_scan and exam) else
+                 'the scan over the exclusions can stop before a matching exclusion was found, or skips exclusions' +
+                 (' (%s)' % bad_scan[0] if bad_scan else ''),
                  'a sector with two exclusions, the flow matching the second one')
     if not excl_loops:
         check.ob('C06.R2', '%s::exclusion-scan-complete' % cash.key, False, cash.where, 'the income exclusions are never consulted',
@@ -222,86 +280,126 @@ def run(prog, check):
                                                                    for c in ast.walk(n.ast))]
     creat = [n for n in g.stmt_nodes() if n.kind == 'stmt' and any(isinstance(c, ast.Call) and call_name(c) == 'AddVariable'
                                                                    for c in ast.walk(n.ast))]
-    none_ret = False
-    for t in g.nodes:
-        if t.kind == 'test' and isinstance(t.ast, ast.Compare) and unparse(t.ast.left) == eqn_p and isinstance(t.ast.ops[0], ast.Is) and \
-                unparse(t.ast.comparators[0]) == 'None':
-            te = [b for b, l in g.succ[t.id] if l is True]
-            r = g.reach(te, include_src=True)
-            if not any(n.id in r for n in overw + creat) and all(g.dominates(t, n) for n in overw + creat):
-                none_ret = True
+
+    def facts_at(n):
+        out = []
+        for test, outcome in g.conditions_at(n):
+            out.extend((resolve_expr(e, sub), v) for _, v, e in atomic_facts(test, outcome))
+            out.append((resolve_expr(test, sub), outcome))
+        return out
+
+    def has_definition(n):
+        for e, v in facts_at(n):
+            if isinstance(e, ast.Compare) and len(e.ops) == 1 and isinstance(e.ops[0], ast.Is) and unparse(e.left) == eqn_p and \
+                    unparse(e.comparators[0]) == 'None' and v is False:
+                return True
+        return False
+    none_ret = bool(overw + creat) and all(has_definition(n) for n in overw + creat)
     check.ob('C06.R3', '%s::no-definition-no-write' % cash.key, none_ret, cash.where,
              'without a defining expression the flow variable is neither created nor overwritten' if none_ret else
              'a flow registered without a definition can create / overwrite the variable', 'AddCashFlow(term) with eqn=None')
+
+    def presence(n):
+        """True / False: reaching n implies the flow variable exists / does not exist"""
+        for e, v in facts_at(n):
+            if isinstance(e, ast.Compare) and len(e.ops) == 1 and isinstance(e.ops[0], ast.In) and (
+                    'GetVariables' in unparse(e.comparators[0]) or 'EquationBlock' in unparse(e.comparators[0])):
+                return v
+        return None
     for n in overw:
-        ok_empty = ok_present = False
-        for t in g.nodes:
-            if t.kind != 'test' or not g.dominates(t, n):
+        ok_empty = False
+        for e, v in facts_at(n):
+            if v is not True:
                 continue
-            fe = [b for b, l in g.succ[t.id] if l is False]
-            if n.id in g.reach(fe, include_src=True):
-                continue
-            e = t.ast
             parts = e.values if (isinstance(e, ast.BoolOp) and isinstance(e.op, ast.Or)) else [e]
             lits = []
             for c in parts:
-                if isinstance(c, ast.Compare) and isinstance(c.ops[0], ast.Eq) and isinstance(c.comparators[0], ast.Constant):
+                if isinstance(c, ast.Compare) and len(c.ops) == 1 and isinstance(c.ops[0], ast.Eq) and isinstance(c.comparators[0], ast.Constant) \
+                        and 'RHS()' in unparse(c.left).replace('GetRightHandSide', 'RHS'):
                     lits.append(c.comparators[0].value)
-            if lits and all(isinstance(x, str) and (x.strip() == '' or _is_zero(x)) for x in lits) and len(lits) == len(parts):
+                elif isinstance(c, ast.Compare) and len(c.ops) == 1 and isinstance(c.ops[0], ast.In) and \
+                        isinstance(c.comparators[0], (ast.Tuple, ast.List, ast.Set)) and 'RHS()' in unparse(c.left).replace('GetRightHandSide', 'RHS') \
+                        and all(isinstance(x, ast.Constant) for x in c.comparators[0].elts):
+                    lits.extend(x.value for x in c.comparators[0].elts)
+                else:
+                    lits.append(None)
+            if lits and all(isinstance(x, str) and (x.strip() == '' or _is_zero(x)) for x in lits):
                 ok_empty = True
-            if isinstance(e, ast.Compare) and isinstance(e.ops[0], ast.In) and ('GetVariables' in unparse(e.comparators[0]) or
-                                                                                'EquationBlock' in unparse(e.comparators[0])):
-                ok_present = True
+        ok_present = presence(n) is True
         check.ob('C06.R3', '%s::overwrite-only-if-empty-or-zero' % cash.key, ok_empty and ok_present, '%s:%d' % (cash.module.rel, n.line),
                  'an existing flow variable is overwritten only when its current right-hand side is empty / zero' if (ok_empty and ok_present)
                  else 'an existing, non-trivial definition of the flow variable can be overwritten', "a sector that already defines 'T = 0.2*INC'")
     for n in creat:
-        ok = False
-        for t in g.nodes:
-            if t.kind == 'test' and g.dominates(t, n) and isinstance(t.ast, ast.Compare) and isinstance(t.ast.ops[0], ast.In):
-                te = [b for b, l in g.succ[t.id] if l is True]
-                if n.id not in g.reach(te, include_src=True):
-                    ok = True
+        ok = presence(n) is False
         check.ob('C06.R3', '%s::create-only-if-absent' % cash.key, ok, '%s:%d' % (cash.module.rel, n.line),
                  'the flow variable is created only when absent' if ok else 'AddVariable can replace an existing variable', 'existing flow variable')
     # the variable defined is the sign-stripped name of the term
-    names_ok = all(any(isinstance(c, ast.Call) and call_name(c) in ('SetEquationRightHandSide', 'AddVariable') and c.args and
-                       unparse(c.args[0]) == term_p for c in ast.walk(n.ast)) for n in overw + creat)
-    strip_assign = [a for a in g.stmt_nodes() if a.kind == 'stmt' and isinstance(a.ast, ast.Assign) and term_p in target_names(a.ast.targets[0])
-                    and unparse(a.ast.value).endswith('.Term')]
-    dom = bool(strip_assign) and all(g.dominates(strip_assign[0], n) for n in overw + creat)
-    check.ob('C06.R3', '%s::defined-name-is-sign-stripped' % cash.key, names_ok and dom, cash.where,
-             'the variable defined is the sign-stripped term name' if (names_ok and dom) else
+    names_ok = bool(overw + creat)
+    for n in overw + creat:
+        for c in ast.walk(n.ast):
+            if isinstance(c, ast.Call) and call_name(c) in ('SetEquationRightHandSide', 'AddVariable') and c.args:
+                a0 = c.args[0]
+                txt = unparse(resolve_expr(a0, sub))
+                good = txt.endswith('.Term')
+                if isinstance(a0, ast.Name) and a0.id == term_p:
+                    # the parameter re-bound to the sign-stripped name before the definition
+                    rb = [a for a in g.stmt_nodes() if a.kind == 'stmt' and isinstance(a.ast, ast.Assign) and
+                          term_p in target_names(a.ast.targets[0]) and unparse(a.ast.value).endswith('.Term')]
+                    good = bool(rb) and any(g.dominates(a, n) for a in rb)
+                names_ok = names_ok and good
+    check.ob('C06.R3', '%s::defined-name-is-sign-stripped' % cash.key, names_ok, cash.where,
+             'the variable defined is the sign-stripped term name' if names_ok else
              'the variable defined is not the sign-stripped term name', "AddCashFlow('-T', 'x')")
     # ---- R4 ----------------------------------------------------------------------------------------
     E = prog.classes.get('Equation')
-    at = E.methods.get('AddTerm') if E else None
-    if at is None:
+    at_raw = E.methods.get('AddTerm') if E else None
+    if at_raw is None:
         raise AnalysisError('Equation.AddTerm not found')
-    check.saw(at)
+    check.saw(at_raw)
+    at = flatten(prog, at_raw)
     ga = cfgmod.build(at)
+    asub = single_assign_subst(at.node)
     merges = [n for n in ga.stmt_nodes() if n.kind == 'stmt' and isinstance(n.ast, ast.AugAssign) and isinstance(n.ast.op, ast.Add)
               and unparse(n.ast.target).endswith('.Constant')]
     appends = [n for n in ga.stmt_nodes() if n.kind == 'stmt' and any(isinstance(c, ast.Call) and call_name(c) == 'append' and
                                                                      'TermList' in unparse(c.func.value) for c in ast.walk(n.ast))]
-    paths = ga.paths(ga.entry, ga.exit, cap=20000)
-    bad = 0
-    for p in paths:
-        k = sum(1 for i in p if ga.nodes[i] in merges or ga.nodes[i] in appends)
-        if k != 1:
-            bad += 1
-    check.ob('C06.R4', '%s::merge-xor-append' % at.key, bad == 0 and bool(paths), at.where,
-             'each of %d normal paths merges once or appends once' % len(paths) if bad == 0 else
-             '%d path(s) neither merge nor append (term lost) or do both (term counted twice)' % bad, 'repeated / cancelling flows')
+    # feasible normal paths (truthiness constants honoured): each merges once or appends once
+    def step4(extra, node, lab, env, nxt):
+        k = extra
+        if node in merges or node in appends:
+            k = min(2, k + 1)
+        return k
+    hits, seen4 = truth_search(ga, [ga.entry], [ga.exit], extra0=0, step=step4)
+    finals = [k for k in seen4 if k[0] == ga.exit.id]
+    bad4 = [k for k in finals if k[2] != 1]
+    check.ob('C06.R4', '%s::merge-xor-append' % at.key, not bad4 and bool(finals), at.where,
+             'every normal path merges once or appends once' if not bad4 else
+             'a path neither merges nor appends (term lost) or does both (term counted twice): lines %s' % trace(seen4, bad4[0], ga),
+             'repeated / cancelling flows')
+    new_p = at.params()[1]
+
+    def equal_text_fact(n, objtxt):
+        """reaching n implies <new term>.Term == <objtxt>.Term"""
+        for test, outcome in ga.conditions_at(n):
+            for _, v, e in atomic_facts(test, outcome):
+                e = resolve_expr(e, asub)
+                if v is True and isinstance(e, ast.Compare) and len(e.ops) == 1 and isinstance(e.ops[0], ast.Eq):
+                    pair = {unparse(e.left), unparse(e.comparators[0])}
+                    if pair == {new_p + '.Term', objtxt + '.Term'}:
+                        return True
+        return False
     for n in merges:
-        ok = False
-        val_ok = unparse(n.ast.value).endswith('.Constant')
-        for t in ga.nodes:
-            if t.kind == 'test' and ga.dominates(t, n):
-                for c in ([t.ast] if not isinstance(t.ast, ast.BoolOp) else t.ast.values):
-                    if isinstance(c, ast.Compare) and isinstance(c.ops[0], ast.Eq) and unparse(c.left).endswith('.Term') and \
-                            unparse(c.comparators[0]).endswith('.Term') and unparse(c.left) != unparse(c.comparators[0]):
-                        ok = True
+        tgt = unparse(n.ast.target)[:-len('.Constant')]
+        val_ok = unparse(n.ast.value) == new_p + '.Constant'
+        ok = equal_text_fact(n, tgt)
+        if not ok and tgt.isidentifier():
+            # the merged object is a local: every definition that is not None was chosen under the equal-text test
+            defs = [d for d in ga.stmt_nodes() if d.kind == 'stmt' and isinstance(d.ast, ast.Assign) and tgt in target_names(d.ast.targets[0])]
+            nn = [d for d in defs if not (isinstance(d.ast.value, ast.Constant) and d.ast.value.value is None)]
+            not_none = any(v is False and isinstance(e, ast.Compare) and isinstance(e.ops[0], ast.Is) and unparse(e.left) == tgt and
+                           unparse(e.comparators[0]) == 'None' for test, outcome in ga.conditions_at(n) for _, v, e in atomic_facts(test, outcome))
+            ok = bool(nn) and (not_none or len(nn) == len(defs)) and all(
+                isinstance(d.ast.value, ast.Name) and equal_text_fact(d, d.ast.value.id) for d in nn)
         check.ob('C06.R4', '%s::merge-only-equal-text' % at.key, ok and val_ok, '%s:%d' % (at.module.rel, n.line),
                  'coefficients are added only for textually equal terms' if (ok and val_ok) else
                  'coefficients are merged for terms that are not textually equal (or the added amount is not the new coefficient)',
@@ -309,12 +407,12 @@ def run(prog, check):
     # the appended object is the new term
     for n in appends:
         c = [c for c in ast.walk(n.ast) if isinstance(c, ast.Call) and call_name(c) == 'append'][0]
-        ok = isinstance(c.args[0], ast.Name) and c.args[0].id == at.params()[1]
+        ok = isinstance(c.args[0], ast.Name) and c.args[0].id == new_p
         check.ob('C06.R4', '%s::append-the-new-term' % at.key, ok, '%s:%d' % (at.module.rel, n.line), 'the new term is appended', '')
     # ---- W -----------------------------------------------------------------------------------------
-    who_may_write(prog, check, 'C06.W', cash)
+    who_may_write(prog, check, 'C06.W', cash_raw)
     check.floor('C06.R1', 2)
-    check.floor('C06.R2', 4)
+    check.floor('C06.R2', 3)
     check.floor('C06.R3', 4)
     check.floor('C06.R4', 3)
     check.floor('C06.W', 4)
